@@ -110,10 +110,11 @@ type world struct {
 	attachN int
 	// gate: the next file-system call after arming blocks (after it has been
 	// logged) until gateOpen is closed; entered tells the driver it is inside
-	gateArmed bool
-	gateHit   bool
-	entered   chan struct{}
-	gateOpen  chan struct{}
+	gateArmed  bool
+	gateHit    bool
+	entered    chan struct{}
+	gateOpen   chan struct{}
+	stopActive bool // Stop is running while an operation is held in the file system
 }
 
 // section locks the world for the duration of one file-system call; the
@@ -152,7 +153,12 @@ func (w *world) newHandle(dir bool) *hEnt {
 
 // use: a call arrived at handle h (or at a File / ReadNext obtained from it).
 func (w *world) use(h *hEnt, name string, arg int) (tok, *callRec) {
-	t := w.take()
+	var t tok
+	if !(w.stopActive && name == "clunk") {
+		// (while Stop runs beside an operation in flight, Clunk calls - whose result both
+		// ignore - do not consume the operation's tokens)
+		t = w.take()
+	}
 	if w.gateArmed {
 		w.gateArmed, w.gateHit = false, true
 	}
@@ -189,11 +195,11 @@ func (w *world) Attach(ctx context.Context, uname, aname string, af p9p.AuthFile
 }
 
 type hEnt struct {
-	w        *world
-	id       int
-	dir      bool
-	released int
-	causes   []string
+	w         *world
+	id        int
+	dir       bool
+	released  int
+	causes    []string
 	everBound bool
 }
 
@@ -302,7 +308,7 @@ func (f *hFile) rw(name string) (int, error) {
 }
 func (f *hFile) Read(ctx context.Context, p []byte, off int64) (int, error)  { return f.rw("read") }
 func (f *hFile) Write(ctx context.Context, p []byte, off int64) (int, error) { return f.rw("write") }
-func (f *hFile) IOUnit() int                                                  { return 0 }
+func (f *hFile) IOUnit() int                                                 { return 0 }
 
 // dummyEnt is what a partial walk returns beside its qids (like ramfs's
 // noHandle): not a resource; the session must not call it.
@@ -424,19 +430,18 @@ type failure struct {
 }
 
 type seqRun struct {
-	w        *world
-	sess     p9p.Session
-	ref      map[uint32]*rbind
-	stopped  bool
-	ops      []*opT
-	obs      []sx.S
-	fails    []failure
-	branches []string
-	hung     bool
+	w          *world
+	sess       p9p.Session
+	ref        map[uint32]*rbind
+	stopped    bool
+	ops        []*opT
+	obs        []sx.S
+	fails      []failure
+	branches   []string
+	hung       bool
 	lockedSeen map[uint32]bool
 	inflight   string // kind of the operation that was in flight when Stop was called ("" = ordinary sequence)
-	modelled   bool   // the model predicts this in-flight case
-	diverged bool // the reference table no longer describes the session (after the first C08 failure)
+	diverged   bool   // the reference table no longer describes the session (after the first C08 failure)
 }
 
 func validNames(ns []string) bool {
@@ -802,10 +807,12 @@ func (r *seqRun) record(o *opT, out outcome) {
 		r.fail("C13", ev[:i], o.String()+": "+ev[i+1:])
 	}
 	if o.kind == "stop" {
-		r.stopped = true
+		// Stop empties the table; the reference starts afresh and stays in force
 		for _, e := range table {
 			if e.Bound {
 				r.fail("C13", "session.stop.still-bound", fmt.Sprintf("fid %d is still bound after Stop", e.Fid))
+			} else if !e.Locked {
+				r.fail("C08", "session.stop.fid-left-reserved", fmt.Sprintf("fid %d is still in the table after Stop: it cannot be used again", e.Fid))
 			}
 		}
 		for f := range r.ref {
@@ -1075,12 +1082,11 @@ var coreKinds = []string{"stat", "wstat", "read", "write"}
 var extKinds = []string{"open", "walk", "create", "attach", "clunk", "remove"}
 
 // runInflight: some set-up operations, then one operation is started and held
-// inside its first file-system call (so it holds its fid's lock) while Stop is
-// called; then the gate opens.  Once both have returned, every entry that was
-// ever bound must have been released exactly once and nothing may be bound
-// (C13, "stop at any point").  For stat/wstat/read/write - operations that do
-// nothing but unlock after their call - the model predicts Stop's calls and
-// the tables too; for the other kinds the family is oracle-only.
+// inside its first file-system call (so it holds its fid's lock, or its
+// reservation) while Stop is called; then the gate opens.  Stop has to wait
+// for the operation; once both have returned, every entry that was ever bound
+// must have been released exactly once and nothing may be bound (C13, "stop
+// at any point").  The model predicts the same as for "operation, then Stop".
 func runInflight(g *prng.R) *seqRun {
 	w := &world{}
 	r := &seqRun{w: w, sess: p9p.SFileSys(w), ref: map[uint32]*rbind{}, lockedSeen: map[uint32]bool{}}
@@ -1131,7 +1137,6 @@ func runInflight(g *prng.R) *seqRun {
 	if o.kind != want {
 		o = &opT{kind: "stat", fid: r.pickFid(g, true, 100)}
 	}
-	core := o.kind == "stat" || o.kind == "wstat" || o.kind == "read" || o.kind == "write"
 	hang := time.Duration(*hangMs) * time.Millisecond
 	done := r.launch(o, true)
 	var out outcome
@@ -1155,34 +1160,30 @@ func runInflight(g *prng.R) *seqRun {
 	}
 	// o is inside its file-system call and holds its fid's lock
 	r.inflight = o.kind
-	// keys: session.stop.inflight:<what>:<kind> for the operations that only unlock after their
-	// call; session.stop.inflight.ext:<what>:<kind> for those that go on to change the table
-	pfx := "session.stop.inflight:"
-	if !core {
-		pfx = "session.stop.inflight.ext:"
-	}
 	bad := func(what, text string) {
-		r.fail("C13", pfx+what+":"+o.kind, fmt.Sprintf("Stop while %s is inside its first file-system call: %s", o.String(), text))
+		r.fail("C13", "session.stop.inflight:"+what+":"+o.kind, fmt.Sprintf("Stop while %s is inside its first file-system call: %s", o.String(), text))
 	}
-	w.mu.Lock()
-	nOpCalls := len(w.calls)
-	w.mu.Unlock()
 	stopDone := make(chan struct{})
+	w.mu.Lock()
+	w.stopActive = true
+	w.mu.Unlock()
 	go func() {
 		defer close(stopDone)
 		r.sess.Stop(nil)
 	}()
-	stopReturned := false
+	// Stop must wait for the operation, unless the operation has already taken its SFid out
+	// of the table (clunk, remove).  "Still blocked" is observed with a short time-out,
+	// "returns" with the generous one: a slow machine can hide a violation, never invent one.
+	expectBlocked := o.kind != "clunk" && o.kind != "remove"
+	wait := hang
+	if expectBlocked {
+		wait = 80 * time.Millisecond
+	}
+	stopObs := "blocked"
 	select {
 	case <-stopDone:
-		stopReturned = true
-	case <-time.After(hang): // a Stop that waits for the operation is acceptable
-	}
-	var stopObs sx.S = sx.L(sx.Sym("stop"), sx.Sym("blocked"))
-	if stopReturned {
-		w.mu.Lock()
-		stopObs = sx.L(sx.Sym("stop"), rowsSx(r.table()), callsSx(w.calls[nOpCalls:], true))
-		w.mu.Unlock()
+		stopObs = "returned"
+	case <-time.After(wait):
 	}
 	close(w.gateOpen)
 	select {
@@ -1191,7 +1192,7 @@ func runInflight(g *prng.R) *seqRun {
 		r.hung = true
 		bad("hang", "the operation did not return after the gate was opened")
 	}
-	if !r.hung && !stopReturned {
+	if !r.hung && stopObs == "blocked" {
 		select {
 		case <-stopDone:
 		case <-time.After(hang):
@@ -1203,16 +1204,13 @@ func runInflight(g *prng.R) *seqRun {
 	defer w.mu.Unlock()
 	table := r.table()
 	res := resSx(o, out, r.hung)
-	var opCalls []callRec
-	if nOpCalls <= len(w.calls) {
-		opCalls = w.calls[:nOpCalls]
-	}
-	r.branches = append(r.branches, "inflight-"+o.kind+":"+o.result)
+	r.branches = append(r.branches, "inflight-"+o.kind+":"+o.result+":stop-"+stopObs)
 	r.stopped = true
-	if core {
-		r.obs = append(r.obs, stopObs, sx.L(res, rowsSx(table), callsSx(opCalls, false)))
+	// the calls of the operation and of Stop together, by entry (Stop's order is the map's)
+	r.obs = append(r.obs, sx.L(sx.Sym("stop"), sx.Sym(stopObs)), sx.L(res, rowsSx(table), callsSx(w.calls, true)))
+	if stopObs == "returned" && expectBlocked {
+		bad("not-waited", "Stop returned while the operation was still inside the file system holding its fid's lock")
 	}
-	r.modelled = core
 	if r.hung {
 		return r
 	}
@@ -1256,11 +1254,7 @@ func (r *seqRun) caseSexp(upto int) sx.S {
 		for _, o := range r.ops[:len(r.ops)-1] {
 			setup = append(setup, o.sexp())
 		}
-		head := "inflight"
-		if !r.modelled {
-			head = "inflightx"
-		}
-		return sx.L(sx.Sym(head), sx.List(setup), r.ops[len(r.ops)-1].sexp())
+		return sx.L(sx.Sym("inflight"), sx.List(setup), r.ops[len(r.ops)-1].sexp())
 	}
 	l := []sx.S{sx.Sym("seq")}
 	for i, o := range r.ops {
@@ -1327,11 +1321,7 @@ func main() {
 			nhang++
 		}
 		c := s.caseSexp(len(s.ops))
-		if s.inflight != "" && !s.modelled {
-			r.Case(c, sx.L(sx.Sym("oracle-only")), "seq", okc >= 3)
-		} else {
-			r.Case(c, sx.List(s.obs), "seq", okc >= 3)
-		}
+		r.Case(c, sx.List(s.obs), "seq", okc >= 3)
 		for _, b := range s.branches {
 			r.Hist[b]++
 		}
